@@ -1810,10 +1810,52 @@ impl PhysicalPlanner {
             }
 
             LogicalPlan::Values(node) => {
-                // Evaluate constant expressions and create a batch
+                // Evaluate each row's constant expressions against a one-row,
+                // zero-column batch and stack them into a single batch.
                 let schema = plan_schema_to_arrow(&node.schema);
-                // For now, return empty - proper implementation needs expression evaluation
-                let exec = MemoryTableExec::new("values", schema, vec![], None);
+                let batches = if node.values.is_empty() {
+                    vec![]
+                } else {
+                    let one = arrow::record_batch::RecordBatch::try_new_with_options(
+                        Arc::new(Schema::empty()),
+                        vec![],
+                        &arrow::record_batch::RecordBatchOptions::new().with_row_count(Some(1)),
+                    )?;
+                    let width = schema.fields().len();
+                    let mut parts: Vec<Vec<arrow::array::ArrayRef>> = vec![Vec::new(); width];
+                    for row in &node.values {
+                        if row.len() != width {
+                            return Err(QueryError::Plan(format!(
+                                "VALUES rows must all have {} columns, found {}",
+                                width,
+                                row.len()
+                            )));
+                        }
+                        for (i, e) in row.iter().enumerate() {
+                            let arr = crate::physical::operators::evaluate_expr(&one, e)?;
+                            let want = schema.field(i).data_type();
+                            let arr = if arr.data_type() == want {
+                                arr
+                            } else {
+                                arrow::compute::cast(&arr, want)?
+                            };
+                            parts[i].push(arr);
+                        }
+                    }
+                    let columns = parts
+                        .iter()
+                        .map(|p| {
+                            let refs: Vec<&dyn arrow::array::Array> =
+                                p.iter().map(|a| a.as_ref()).collect();
+                            arrow::compute::concat(&refs)
+                        })
+                        .collect::<std::result::Result<Vec<_>, _>>()?;
+                    vec![arrow::record_batch::RecordBatch::try_new(
+                        schema.clone(),
+                        columns,
+                    )?]
+                };
+                let exec = MemoryTableExec::new("values", schema, batches, None);
                 Ok(Arc::new(exec))
             }
 
